@@ -94,7 +94,8 @@ Qed.
 Lemma np_dec_payload t b :
   wfb b -> 1 <= lenb b -> (forall s, fixed_size t = Some s -> lenb b = s) -> nopanic (dec_payload t b).
 Proof.
-  intros W H1 Hfix. unfold dec_payload.
+  intros W H1 Hfix. unfold dec_payload, dec_error, dec_session, dec_request, dec_instance, dec_status,
+    dec_motion_p, dec_gnss, dec_engine, dec_target, dec_control, dec_rotator, dec_actor.
   destruct (t =? type_error) eqn:E0; [np|].
   destruct (t =? type_session) eqn:E1; [np|].
   destruct (t =? type_request) eqn:E2; [np|].
